@@ -2,6 +2,7 @@ import PwVerif.Model.Framing
 import PwVerif.Model.Registry
 import PwVerif.Model.Frames
 import PwVerif.Model.Mro
+import PwVerif.Model.Pool
 /-!
 Line-protocol driver: `lake env lean --run PwVerif/Driver.lean < cases.txt`.
 One case per input line, one canonical observation per output line. Used by the
@@ -194,12 +195,61 @@ def c13choice (args : List String) : String :=
     | .remoteReduce false => "remote0"
   | _ => "bad-op"
 
+/-! ## pool: `pool <retry> <extra> <returnResults> <nworkers> <inputs csv|-> <refused w:i,...|-> <ev>...`
+events (`<pre-run events> | <events>`): `w<k>` work, `d<k>m` / `d<k>e` die with marker / bare EOF, `p<k>[.<k>]*` poll batch
+output: `<outcome> ret=<csv> enq=<w:i,...>` -/
+namespace PoolIO
+open PwVerif.Pool
+
+def parsePairs (s : String) : Option (List (Nat × Nat)) :=
+  if s == "-" then some [] else
+  (s.splitOn ",").mapM fun t =>
+    match t.splitOn ":" with
+    | [a, b] => do pure ((← a.toNat?), (← b.toNat?))
+    | _ => none
+
+def parseEv (t : String) : Option Ev :=
+  match t.toList with
+  | 'w' :: r => (String.ofList r).toNat?.map .work
+  | 'd' :: r =>
+    let body := String.ofList r
+    if body.endsWith "m" then (body.dropEnd 1).toNat?.map (.die · true)
+    else if body.endsWith "e" then (body.dropEnd 1).toNat?.map (.die · false)
+    else none
+  | 'p' :: r => (((String.ofList r).splitOn ".").mapM fun (t : String) => t.toNat?).map .poll
+  | _ => none
+
+def csv (l : List Nat) : String := ",".intercalate (l.map toString)
+
+def run (args : List String) : String :=
+  match args with
+  | retry :: extra :: rr :: n :: inputs :: refused :: evs =>
+    let pre := evs.takeWhile (· ≠ "|")
+    let evs := (evs.dropWhile (· ≠ "|")).drop 1
+    match extra.toNat?, n.toNat?, parseNats inputs, parsePairs refused, evs.mapM parseEv, pre.mapM parseEv with
+    | some extra, some n, some inputs, some refused, some evs, some pre =>
+      let c : Cfg := { retry := retry == "1", extra := extra, returnResults := rr == "1",
+                       refuse := fun w i => refused.any (· == (w, i)) }
+      let s := runEvents c pickFirst (start c pickFirst n inputs pre) evs
+      let o := match outcome s with
+        | .waiting => "running"
+        | .returned _ => "returned"
+        | .poolError _ => "poolerror"
+        | .internal .popEmpty => "internal:IndexError"
+        | .internal .outOfFuel => "livelock"
+      o ++ " ret=" ++ csv s.ret ++ " enq=" ++ ",".intercalate (s.enq.map fun (w, i) => toString w ++ ":" ++ toString i)
+        ++ " closed=" ++ csv ((List.range s.ws.length).filter fun k => (getW s k).closed)
+    | _, _, _, _, _, _ => "bad-op"
+  | _ => "bad-op"
+end PoolIO
+
 def step (line : String) : String :=
   match (line.trimAscii.toString.splitOn " ").filter (· ≠ "") with
   | "c10" :: args => c10 args
   | "c19" :: args => c19 args
   | "frames" :: args => FramesIO.run args
   | "c13mro" :: args => c13mro args
+  | "pool" :: args => PoolIO.run args
   | "c13choice" :: args => c13choice args
   | _ => "bad-op"
 
